@@ -52,7 +52,7 @@ class Ctx:
 def prove(ctx):
     """Re-checks the Coq development for this property. Fills obligations/discharged."""
     p = ctx.p
-    bad = build.hygiene()
+    bad = build.hygiene(list(getattr(p, "COQ_PREFIXES", [ctx.pid])))
     if bad:
         ctx.proof_problems.append("forbidden construct in the development: " + "; ".join(bad[:10]))
     targets = list(getattr(p, "COQ_TARGETS", []))
